@@ -195,8 +195,9 @@ type z3Scenario struct {
 	Cancel     bool     `json:"cancel,omitempty"`
 	CancelLate bool     `json:"cancel_late,omitempty"` // the client goes away exactly before some request or body piece (class cancel)
 	Prior      bool     `json:"prior,omitempty"`
-	Dup        bool     `json:"dup,omitempty"`    // the manifest names the first layer's digest twice (same bytes under two media types)
-	Second     bool     `json:"second,omitempty"` // a second concurrent pull of a model sharing the layer
+	Dup        bool     `json:"dup,omitempty"`         // the manifest names the first layer's digest twice (same bytes under two media types)
+	Second     bool     `json:"second,omitempty"`      // a second concurrent pull of a model sharing the layer
+	SecondLate bool     `json:"second_late,omitempty"` // ... that starts at some network operation of the first pull (class switch) instead of together with it
 	Faulty     int      `json:"faulty_attempts"`
 	Cap        int      `json:"quick_total_cap,omitempty"` // quick tier: total deviations for this scenario (0: the default)
 }
@@ -282,15 +283,37 @@ func z3Body(sc z3Scenario) func() {
 			}
 			var err2 error
 			var done2 mcrt.WaitGroup
+			launched2 := false
 			if sc.Second && !clean {
-				done2.Add(1)
-				mcrt.GoNamed("pull2", func() {
-					defer done2.Done()
-					// (its client gives up after 1 virtual minute: a pull that joined a download whose preparation failed waits forever otherwise)
-					ctx2, cancel2 := mcrt.WithTimeout(gocontext.Background(), gotime.Minute)
-					defer cancel2()
-					err2 = PullModel(ctx2, "reg.test/lib/other:tag", &registryOptions{}, func(api.ProgressResponse) {})
-				})
+				launch2 := func() {
+					launched2 = true
+					done2.Add(1)
+					mcrt.GoNamed("pull2", func() {
+						defer done2.Done()
+						// (its client gives up after 1 virtual minute: a pull that joined a download whose preparation failed waits forever otherwise)
+						ctx2, cancel2 := mcrt.WithTimeout(gocontext.Background(), gotime.Minute)
+						defer cancel2()
+						err2 = PullModel(ctx2, "reg.test/lib/other:tag", &registryOptions{}, func(api.ProgressResponse) {})
+					})
+				}
+				if !sc.SecondLate {
+					launch2()
+				} else {
+					// the second client arrives exactly before some request or body piece of the first pull,
+					// however late (one deviation of class switch), or not at all
+					started := false
+					prev := srv.OnNetPoint
+					srv.OnNetPoint = func(label string) {
+						if prev != nil {
+							prev(label)
+						}
+						if !started && mcrt.ThreadName() != "pull2" && mcrt.Choose(mcrt.Switch, "the second pull starts before "+label, "no", "yes") == 1 {
+							started = true
+							mcrt.Observe("second pull starts before %s", label)
+							launch2()
+						}
+					}
+				}
 			}
 			err := PullModel(ctx, ztName, &registryOptions{}, func(api.ProgressResponse) {})
 			for retry := 0; clean && err != nil && retry < 2; retry++ {
@@ -302,7 +325,7 @@ func z3Body(sc z3Scenario) func() {
 				mcrt.WaitIdle(false) // (no clock advance: the code leaks running tickers, so "all timers elapsed" never comes)
 				err = PullModel(ctx, ztName, &registryOptions{}, func(api.ProgressResponse) {})
 			}
-			if sc.Second && !clean {
+			if sc.Second && !clean && launched2 {
 				done2.Wait()
 				mcrt.Observe("second pull: %v", z3Err(err2))
 				if err2 == nil {
@@ -370,6 +393,7 @@ func z3Scenarios(thorough bool) []z3Scenario {
 		{Name: "challenges", Layers: []int{3}, Challenge: adversarial, Faulty: 1},
 		{Name: "replace-tag", Layers: []int{10, 3}, Prior: true, Faults: []string{"500", "truncate", "flip"}, Faulty: 1, Cap: 1},
 		{Name: "shared-layer", Layers: []int{10}, Second: true, Faults: []string{"500", "truncate"}, Faulty: 1, Cap: 1},
+		{Name: "shared-first-of-two", Layers: []int{3, 5}, Second: true, SecondLate: true, Faults: []string{"500", "flip"}, Faulty: 1},
 		{Name: "empty-layer", Layers: []int{0, 3}, Faults: []string{"500"}, Faulty: 1},
 		{Name: "corrupt-then-cancel", Layers: []int{3}, Config: 2, Faults: []string{"500", "flip"}, CancelLate: true, Faulty: 1},
 		{Name: "three-parts-cancel-late", Layers: []int{10}, Config: 2, CancelLate: true, Faulty: 1},
@@ -600,6 +624,9 @@ func ZZVerifC03() {
 		mech := "pull"
 		if sc.Challenge != nil {
 			mech = "auth"
+		}
+		if sc.Second {
+			mech = "concurrent-pulls"
 		}
 		return z3Body(sc), sc, mech
 	}
